@@ -68,8 +68,11 @@ JudgeGetStatus(o) ==
                   (IF o.ret = "nil" THEN << Flag("C08", "GetStatus returned a status the kernel never sent") >> ELSE << >>)
              ELSE LET f == fr[r.i - 1] IN
                   IF f.rel = "own" /\ f.type = AUDIT_GET /\ Len(f.payload) >= MinSizeofAuditStatus THEN
-                      IF o.ret # "nil" THEN << Flag("C08", "GetStatus failed although the kernel acknowledged and replied") >>
-                      ELSE IF Len(o.data) # 1 \/ Len(o.data[1]) # SizeofAuditStatus THEN << Flag("C08", "GetStatus returned no status") >>
+                      \* every reply of at least the 2.6.32 size is a status (C16: all reply lengths)
+                      IF o.ret # "nil" THEN << Flag("C08", "GetStatus failed although the kernel acknowledged and replied"),
+                                               Flag("C16", "GetStatus did not return the fields of a reply of at least the 2.6.32 size") >>
+                      ELSE IF Len(o.data) # 1 \/ Len(o.data[1]) # SizeofAuditStatus THEN << Flag("C08", "GetStatus returned no status"),
+                                               Flag("C16", "GetStatus did not return the fields of a reply of at least the 2.6.32 size") >>
                       ELSE IF ~StatusMatches(o.data[1], f.payload)
                            THEN << Flag("C08", "GetStatus returned fields that differ from the kernel's reply"),
                                    Flag("C16", "status decoded differently from the audit_status layout") >>
